@@ -38,6 +38,8 @@ MODELLED = ["user functions prior_transform / log_likelihood are pure and determ
             "np.random.rand returns numbers in [0,1) (hypothesis TapeOk of the run theorems; the real-run suite checks u in the cube after "
             "every warm-up)",
             "pool.map returns results in input order; a vectorised likelihood's rows are the user's business",
+            "the model has ONE predicate `isInf` for np.isinf in the warm-up and for 'alpha = 0' in the MCMC pass, i.e. the likelihood "
+            "returns finite numbers or -inf, never +inf or NaN (a +inf proposal WOULD be accepted by the real code)",
             "fancy indexing / boolean-mask assignment / np.concatenate = gather? / maskSet / scatterFrom / flatten (IndexError etc. = none)",
             "dill round trip of a checkpoint = identity on values (byte level: C08_restore_exact, C08_state_manager_restore); "
             "copies handed out by the StateManager never alias the stored arrays (C17)",
@@ -311,6 +313,7 @@ def _suite_real_runs(tier):
         c.count("kernel:" + cfg["kernel"])
         c.count("boundaries:" + ((("periodic" if cfg["periodic"] else "") + ("+reflective" if cfg["reflective"] else "")) or "hard"))
         c.count("metric:" + ("volume_variation" if cfg["volume_variation"] else "ess"))
+        c.count("support:" + (cfg.get("hole") or "full"))
         if cfg.get("raised"):
             c.count("run_raised(" + cfg["mode"] + ")")
     for f in found:
@@ -363,11 +366,14 @@ def _oracle_real_runs(rng, n_runs, log=None, stop_after=3):
         use_pool = mode != "vector" and rng.random() < 0.25
         n_max_steps = rng.choice([2, 2, 4])
         resume_at = rng.choice([None, None, 2, 4])
+        # part of the prior has zero likelihood: "half" (x0 > 0.3), "tiny" (only u0 < 0.06 is supported: with 16 particles
+        # about one warm-up batch in three has NO finite draw, which drives the redraw loop of /repo 959029e)
+        hole = rng.choice([None, None, "half", "tiny"])
         per = [0] if (d >= 2 and rng.random() < 0.3) else None
         refl = [d - 1] if (d >= 2 and rng.random() < 0.3 and (per is None or d - 1 not in per)) else None
         vv = rng.choice([None, None, 0.5])
         cfg = dict(d=d, kernel=kernel, resample=resample, clustering=clustering, mode=mode, periodic=per, reflective=refl, volume_variation=vv,
-                   pool=use_pool, n_max_steps=n_max_steps, resume_at=resume_at)
+                   pool=use_pool, n_max_steps=n_max_steps, resume_at=resume_at, hole=hole)
         if log is not None:
             log.append(cfg)
 
@@ -380,6 +386,10 @@ def _oracle_real_runs(rng, n_runs, log=None, stop_after=3):
             return x
 
         def L1(x):
+            if hole == "half" and float(x[0]) > 0.3:
+                return -np.inf
+            if hole == "tiny" and float(x[0]) > 4.0 * 0.06 - 2.0:
+                return -np.inf
             return -0.5 * float(np.sum((x - 0.3) ** 2)) * 4.0
         if mode == "vector":
             like = lambda X: np.array([L1(r) for r in X])
@@ -435,6 +445,9 @@ def _oracle_real_runs(rng, n_runs, log=None, stop_after=3):
             for i in range(len(u)):
                 if not np.array_equal(T(u[i]), x[i]):
                     bad.append(f"{where}: particle {i} x != T(u)")
+                    break
+                if not np.isfinite(l[i]):
+                    bad.append(f"{where}: particle {i} is stored with logl = {l[i]!r}")
                     break
                 if L1(x[i]) != l[i]:
                     bad.append(f"{where}: particle {i} logl != L(x) ({l[i]!r} vs {L1(x[i])!r})")
@@ -499,8 +512,8 @@ def _oracle_real_runs(rng, n_runs, log=None, stop_after=3):
                         bad.append(f"{where}: return_blobs=True returned no blobs although the likelihood has blobs")
                         break
                     for i in range(len(xs)):
-                        if L1(xs[i]) != ls[i]:
-                            bad.append(f"{where}: row {i} logl != L(x)")
+                        if L1(xs[i]) != ls[i] or not np.isfinite(ls[i]):
+                            bad.append(f"{where}: row {i} logl != L(x) (or infinite)")
                             break
                         if has_blobs and (len(out[3]) != len(xs) or not blob_ok(out[3][i], xs[i])):
                             bad.append(f"{where}: row {i} blob != blob(x)")
@@ -523,8 +536,10 @@ def search(tier, hints):
     found = _oracle_sequences(rng, 150 if tier == "quick" else 1500)
     if len(found) < 3:
         found += c07_sm.oracle_sm(rng, 120 if tier == "quick" else 1200)
-    if len(found) < 3:
+    if len(found) < 3 or all(str(f.get("what", "")).startswith("scripted run raised") for f in found):
         found += _oracle_real_runs(rng, 40 if tier == "quick" else 400)
+    # a concrete incoherent record is a better failing input than "the real code raised under the scripted randomness"
+    found.sort(key=lambda f: str(f.get("what", "")).startswith("scripted run raised"))
     return found
 
 
